@@ -127,6 +127,41 @@ pub fn gen_call(rng: &mut Rng, sigs: &[(i32, String)], skip: &[i32], style: &Arg
 
 pub struct BodyOpts { pub depth: u32, pub allow_blocks: bool, pub time_labels: bool, pub max_stmts: usize }
 
+/// Old ECL: the same instruction once per difficulty group, differing in one integer argument,
+/// optionally with a time label between groups (what the decompiler may fold into a difficulty
+/// switch - but only when times, labels and the other arguments allow it).
+pub fn gen_diff_ladder(rng: &mut Rng, sigs: &[(i32, String)], skip: &[i32], indent: usize) -> Option<String> {
+    let pad = " ".repeat(indent);
+    let style = ArgStyle { boundary: false, allow_strings: false };
+    for _ in 0..30 {
+        let (op, sig) = rng.pick(sigs);
+        if skip.contains(op) || *op < 0 { continue; }
+        let params: Vec<SigParam> = parse_sig(sig).into_iter().filter(|p| !matches!(p.ch, '_' | '-')).collect();
+        if params.is_empty() || params.iter().any(|p| matches!(p.ch, 'o' | 't' | 'z' | 'm' | 'p')) { continue; }
+        let vary: Vec<usize> = (0..params.len()).filter(|&i| matches!(params[i].ch, 'S' | 'f') && !params[i].attrs.contains("enum")).collect();
+        if vary.is_empty() { continue; }
+        let vi = *rng.pick(&vary);
+        let mut base = vec![];
+        for p in &params { match gen_arg(rng, p, &style) { Ok(Some(a)) => base.push(a), _ => { base.clear(); break; } } }
+        if base.len() != params.len() { continue; }
+        let groups: &[&[&str]] = &[&["E", "N", "H", "L"], &["EN", "HL"], &["E", "NHL"], &["ENH", "L"], &["E", "N", "HL"], &["EN", "H", "L"],
+            // unusual masks: empty, aux-only, gaps, out of order, overlapping
+            &["", "E"], &["E", "", "N"], &["4567", "E"], &["E", "H"], &["N", "E"], &["EN", "NH"], &["-E", "E"], &["*", "E"], &["E4", "N5"]];
+        let g = *rng.pick(groups);
+        let mut out = String::new();
+        for (k, name) in g.iter().enumerate() {
+            if k > 0 && rng.chance(1, 3) { out.push_str(&format!("+{}:\n", rng.pick(&[1, 10, 60]))); }
+            let mut args = base.clone();
+            args[vi] = if params[vi].ch == 'f' { float_text((k as f32 + 1.0) * 1.5) } else { format!("{}", 10 * (k + 1) + rng.below(3)) };
+            if rng.chance(1, 8) { args[vi] = base[vi].clone(); }
+            out.push_str(&format!("{pad}{{\"{name}\"}}: ins_{op}({});\n", args.join(", ")));
+        }
+        if let Some(c) = gen_call(rng, sigs, skip, &style) { out.push_str(&format!("{pad}{{\"*\"}}: {c}\n")); } else { continue; }
+        return Some(out);
+    }
+    None
+}
+
 /// Script body: calls, time labels, loops (`loop`/`times` need jump intrinsics; only where `has_jumps`).
 pub fn gen_body(rng: &mut Rng, sigs: &[(i32, String)], skip: &[i32], style: &ArgStyle, opts: &BodyOpts, has_jumps: bool, indent: usize) -> String {
     let pad = " ".repeat(indent);
@@ -298,6 +333,11 @@ pub fn gen_ecl(rng: &mut Rng, game: Game) -> GenSource {
             }
         }
         body.push_str(&gen_body(rng, &sigs, &skip, &style, &BodyOpts { depth: 2, allow_blocks: true, time_labels: true, max_stmts: 7 }, true, 4));
+        for _ in 0..rng.below(3) {
+            if let Some(l) = gen_diff_ladder(rng, &sigs, &skip, 4) { body.push_str(&l); }
+            if rng.chance(1, 2) { body.push_str(&format!("+{}:\n", rng.pick(&[1, 5, 30]))); }
+            if let Some(c) = gen_call(rng, &sigs, &skip, &style) { body.push_str(&format!("    {c}\n")); }
+        }
         text.push_str(&format!("void sub{i}() {{\n{body}}}\n\n"));
     }
     GenSource { format: Format::Ecl, game, text, maps: vec![ECL_DIFFICULTY_MAP.to_string()] }
@@ -322,6 +362,93 @@ pub fn gen_anm_v0_multi_entry(rng: &mut Rng) -> GenSource {
         }
     }
     GenSource { format: Format::Anm, game, text, maps: vec![] }
+}
+
+/// A file skeleton with exactly one generated call (arguments at and beyond the declared widths):
+/// returns (source without the call, text before the call, text after it, opcode, argument texts).
+pub fn gen_single_call(rng: &mut Rng) -> Option<(GenSource, String, String, i32, Vec<String>)> {
+    let (format, game, lang, head, tail): (Format, Game, LanguageKey, String, String) = match rng.below(6) {
+        0 => { let g = *rng.pick(GAMES_MSG); (Format::Msg, g, LanguageKey::Msg, "meta { table: {0: {script: \"script0\"}} }\nscript script0 {\n".into(), "}\n".into()) },
+        1 => { let g = *rng.pick(GAMES_STD);
+               let meta = if g < Game::Th095 { "meta { unknown: 0, stage_name: \"dm\", bgm: [{path: \" \", name: \" \"}, {path: \" \", name: \" \"}, {path: \" \", name: \" \"}, {path: \" \", name: \" \"}], objects: {}, instances: [] }\n" } else { "meta { unknown: 0, anm_path: \"a.anm\", objects: {}, instances: [] }\n" };
+               (Format::Std, g, LanguageKey::Std, format!("{meta}script main {{\n"), "}\n".into()) },
+        2 | 3 => { let g = *rng.pick(GAMES_ANM); (Format::Anm, g, LanguageKey::Anm, "entry { path: \"a.png\", has_data: false, img_width: 16, img_height: 16, img_format: 3, sprites: {s0: {x: 0.0, y: 0.0, w: 1.0, h: 1.0}, s1: {x: 0.0, y: 0.0, w: 1.0, h: 1.0}, s2: {x: 0.0, y: 0.0, w: 1.0, h: 1.0}} }\nscript script0 {\n".into(), "}\nscript script1 { }\nscript script2 { }\n".into()) },
+        4 => { let g = *rng.pick(GAMES_ECL); (Format::Ecl, g, LanguageKey::Ecl, "script timeline0 { }\nvoid sub0() {\n".into(), "}\nvoid sub1() { }\nvoid sub2() { }\n".into()) },
+        _ => { let g = *rng.pick(GAMES_ECL); (Format::Ecl, g, LanguageKey::Timeline, "script timeline0 {\n".into(), "}\nvoid sub0() { }\nvoid sub1() { }\nvoid sub2() { }\n".into()) },
+    };
+    let sigs = signatures(game, lang);
+    let skip = intrinsic_opcodes(game, lang);
+    if sigs.is_empty() { return None; }
+    for _ in 0..30 {
+        let (op, sig) = rng.pick(&sigs);
+        if skip.contains(op) || *op < 0 { continue; }
+        let params: Vec<SigParam> = parse_sig(sig).into_iter().filter(|p| !matches!(p.ch, '_' | '-')).collect();
+        if params.iter().any(|p| matches!(p.ch, 'o' | 't')) || params.is_empty() { continue; }
+        let mut args = vec![];
+        for p in &params {
+            let wide: &[i64] = &[0, 1, -1, 127, 128, 255, 256, -128, -129, 32767, 32768, 40000, 65535, 65536, -32768, -32769, 70000, 2147483647, -2147483648, 4294967295];
+            let a = match p.ch {
+                's' | 'u' | 'b' | 'c' if !p.attrs.contains("enum") && rng.chance(2, 3) => format!("{}", rng.pick(wide)),
+                'S' | 'U' if !p.attrs.contains("enum") && rng.chance(1, 2) => format!("{}", rng.pick(wide)),
+                _ => match gen_arg(rng, p, &ArgStyle { boundary: true, allow_strings: true }) { Ok(Some(a)) => a, _ => { args.clear(); break; } },
+            };
+            args.push(a);
+        }
+        if args.len() != params.len() { continue; }
+        let maps = if format == Format::Ecl { vec![ECL_DIFFICULTY_MAP.to_string()] } else { vec![] };
+        return Some((GenSource { format, game, text: String::new(), maps }, head, tail, *op, args));
+    }
+    None
+}
+
+/// Systematic sweep: one call (boundary arguments) for every instruction of every built-in
+/// signature table; `keep` is the fraction (num, den) kept of instructions without narrow parameters.
+pub fn all_single_calls(rng: &mut Rng, keep: (u32, u32), reps_narrow: usize) -> Vec<(GenSource, String, String, i32, Vec<String>)> {
+    let mut out = vec![];
+    let mut tables: Vec<(Format, Game, LanguageKey)> = vec![];
+    for &g in GAMES_MSG { tables.push((Format::Msg, g, LanguageKey::Msg)); }
+    for &g in GAMES_END { tables.push((Format::End, g, LanguageKey::End)); }
+    for &g in GAMES_STD { tables.push((Format::Std, g, LanguageKey::Std)); }
+    for &g in GAMES_ANM { tables.push((Format::Anm, g, LanguageKey::Anm)); }
+    for &g in GAMES_ECL { tables.push((Format::Ecl, g, LanguageKey::Ecl)); tables.push((Format::Ecl, g, LanguageKey::Timeline)); }
+    for (format, game, lang) in tables {
+        let (head, tail): (String, String) = match (format, lang) {
+            (Format::Msg, _) | (Format::End, _) => ("meta { table: {0: {script: \"script0\"}} }\nscript script0 {\n".into(), "}\n".into()),
+            (Format::Std, _) => {
+                let meta = if game < Game::Th095 { "meta { unknown: 0, stage_name: \"dm\", bgm: [{path: \" \", name: \" \"}, {path: \" \", name: \" \"}, {path: \" \", name: \" \"}, {path: \" \", name: \" \"}], objects: {}, instances: [] }\n" } else { "meta { unknown: 0, anm_path: \"a.anm\", objects: {}, instances: [] }\n" };
+                (format!("{meta}script main {{\n"), "}\n".into())
+            },
+            (Format::Anm, _) => ("entry { path: \"a.png\", has_data: false, img_width: 16, img_height: 16, img_format: 3, sprites: {s0: {x: 0.0, y: 0.0, w: 1.0, h: 1.0}, s1: {x: 0.0, y: 0.0, w: 1.0, h: 1.0}, s2: {x: 0.0, y: 0.0, w: 1.0, h: 1.0}} }\nscript script0 {\n".into(), "}\nscript script1 { }\nscript script2 { }\n".into()),
+            (_, LanguageKey::Timeline) => ("script timeline0 {\n".into(), "}\nvoid sub0() { }\nvoid sub1() { }\nvoid sub2() { }\n".into()),
+            _ => ("script timeline0 { }\nvoid sub0() {\n".into(), "}\nvoid sub1() { }\nvoid sub2() { }\n".into()),
+        };
+        let sigs = signatures(game, lang);
+        let skip = intrinsic_opcodes(game, lang);
+        for (op, sig) in &sigs {
+            if skip.contains(op) || *op < 0 { continue; }
+            let params: Vec<SigParam> = parse_sig(sig).into_iter().filter(|p| !matches!(p.ch, '_' | '-')).collect();
+            if params.is_empty() || params.iter().any(|p| matches!(p.ch, 'o' | 't')) { continue; }
+            let narrow = params.iter().any(|p| matches!(p.ch, 's' | 'u' | 'b' | 'c'));
+            let wide: &[i64] = &[0, 1, -1, 127, 128, 255, 256, -128, -129, 32767, 32768, 40000, 65535, 65536, -32768, -32769, 70000, 2147483647, -2147483648, 4294967295];
+            // instructions with byte/word parameters: every boundary value in turn (x reps_narrow)
+            let reps = if narrow { wide.len() * reps_narrow } else if rng.chance(keep.0, keep.1) { 1 } else { 0 };
+            for rep in 0..reps {
+                let mut args = vec![];
+                for p in &params {
+                    let a = match p.ch {
+                        's' | 'u' | 'b' | 'c' if !p.attrs.contains("enum") => format!("{}", wide[rep % wide.len()]),
+                        'S' | 'U' if !p.attrs.contains("enum") && rng.chance(1, 2) => format!("{}", rng.pick(wide)),
+                        _ => match gen_arg(rng, p, &ArgStyle { boundary: true, allow_strings: true }) { Ok(Some(a)) => a, _ => { args.clear(); break; } },
+                    };
+                    args.push(a);
+                }
+                if args.len() != params.len() { continue; }
+                let maps = if format == Format::Ecl { vec![ECL_DIFFICULTY_MAP.to_string()] } else { vec![] };
+                out.push((GenSource { format, game, text: String::new(), maps }, head.clone(), tail.clone(), *op, args));
+            }
+        }
+    }
+    out
 }
 
 pub fn gen_any(rng: &mut Rng) -> GenSource {
